@@ -61,37 +61,63 @@ func parseIName(s string) iname {
 	return n
 }
 
-// component numbers 91..94 are very long components (value lengths around 2^16), everything else is "c<k>"
-var longLen = map[int]int{91: 65535, 92: 65536, 93: 65537, 94: 70000}
-var longVal = map[int][]byte{}
+// ---- special components.  Ordinary component k is the generic component "c<k>"; the numbers below stand for components
+// chosen at the boundaries of the encodings the tables' keys go through (hash input, Name.Bytes(), Name.String()):
+//   61..69   same-print / typed siblings: segment 5 as 05 / 00 05 / 00 00 00 05, the other numeric conventions, generic
+//   91..96   very long values (65535, 65536, 65537, 70000 bytes; 95/96 = 65535/65536 differing from 91/92 in the last byte)
+//   101..112 value lengths 249..254 (component TLV and whole-name lengths around 253), two siblings per length that differ
+//            only in the last byte;  113..118 component types 252, 253, 254, two values each
+var special = map[int]enc.Component{}
+var specialKey = map[string]int{}
 
-// component numbers 61..69: siblings that differ in type or in the byte form of a number but print alike
-// (segment 5 as 05 / 00 05 / 00 00 00 05; the same value under the other numeric conventions and as a generic component)
-type typedComp struct {
-	typ enc.TLNum
-	val []byte
+func compKey(c enc.Component) string { return strconv.FormatUint(uint64(c.Typ), 10) + "|" + string(c.Val) }
+
+func filled(n int, last byte) []byte {
+	v := make([]byte, n)
+	for i := range v {
+		v[i] = byte('a' + i%7)
+	}
+	if n > 0 {
+		v[n-1] = last
+	}
+	return v
 }
 
-var typedComps = map[int]typedComp{
-	61: {50, []byte{5}}, 62: {50, []byte{0, 5}}, 63: {50, []byte{0, 0, 0, 5}},
-	64: {52, []byte{5}}, 65: {54, []byte{5}}, 66: {56, []byte{5}}, 67: {58, []byte{5}},
-	68: {8, []byte{5}}, 69: {52, []byte{0, 5}},
+func init() {
+	add := func(k int, typ enc.TLNum, val []byte) {
+		c := enc.Component{Typ: typ, Val: val}
+		special[k] = c
+		specialKey[compKey(c)] = k
+	}
+	add(61, 50, []byte{5})
+	add(62, 50, []byte{0, 5})
+	add(63, 50, []byte{0, 0, 0, 5})
+	add(64, 52, []byte{5})
+	add(65, 54, []byte{5})
+	add(66, 56, []byte{5})
+	add(67, 58, []byte{5})
+	add(68, 8, []byte{5})
+	add(69, 52, []byte{0, 5})
+	for i, n := range []int{65535, 65536, 65537, 70000} {
+		add(91+i, enc.TypeGenericNameComponent, filled(n, 'x'))
+	}
+	add(95, enc.TypeGenericNameComponent, filled(65535, 'y'))
+	add(96, enc.TypeGenericNameComponent, filled(65536, 'y'))
+	for i, n := range []int{249, 250, 251, 252, 253, 254} {
+		add(101+2*i, enc.TypeGenericNameComponent, filled(n, 'x'))
+		add(102+2*i, enc.TypeGenericNameComponent, filled(n, 'y'))
+	}
+	for i, t := range []enc.TLNum{252, 253, 254} {
+		add(113+2*i, t, []byte("t"))
+		add(114+2*i, t, []byte("u"))
+	}
 }
+
+func isLong(k int) bool { return k >= 91 && k <= 96 }
 
 func comp(k int) enc.Component {
-	if tc, ok := typedComps[k]; ok {
-		return enc.Component{Typ: tc.typ, Val: append([]byte{}, tc.val...)}
-	}
-	if n, ok := longLen[k]; ok {
-		v, have := longVal[k]
-		if !have {
-			v = make([]byte, n)
-			for i := range v {
-				v[i] = byte('a' + i%7)
-			}
-			longVal[k] = v
-		}
-		return enc.NewBytesComponent(enc.TypeGenericNameComponent, v)
+	if c, ok := special[k]; ok {
+		return enc.Component{Typ: c.Typ, Val: append([]byte{}, c.Val...)}
 	}
 	return enc.NewStringComponent(enc.TypeGenericNameComponent, "c"+strconv.Itoa(k))
 }
@@ -104,34 +130,47 @@ func (n iname) enc() enc.Name {
 	return out
 }
 
+// encVia builds the name the way real callers obtain names: "" by construction, "s" through enc.NameFromStr of its URI,
+// "b" through enc.NameFromBytes of its wire encoding (as a decoded ControlParameters name).  "s" is only used for names of
+// ordinary components (the URI of a non-canonical numeric component does not parse back to the same component).
+func (n iname) encVia(via string) enc.Name {
+	built := n.enc()
+	switch via {
+	case "s":
+		for _, k := range n {
+			if _, sp := special[k]; sp {
+				return built
+			}
+		}
+		if p, err := enc.NameFromStr(built.String()); err == nil {
+			return p
+		}
+	case "b":
+		if p, err := enc.NameFromBytes(built.Bytes()); err == nil {
+			return p
+		}
+	}
+	return built
+}
+
+// splitVia separates "/1/2~s" into the name and the representation marker
+func splitVia(s string) (string, string) {
+	if i := strings.IndexByte(s, '~'); i >= 0 {
+		return s[:i], s[i+1:]
+	}
+	return s, ""
+}
+
 func unintern(n enc.Name) string {
 	in := make(iname, len(n))
 	for i, c := range n {
-		if k, ok := func() (int, bool) {
-			for k, tc := range typedComps {
-				if tc.typ == c.Typ && string(tc.val) == string(c.Val) {
-					return k, true
-				}
-			}
-			return 0, false
-		}(); ok {
+		if k, ok := specialKey[compKey(c)]; ok {
 			in[i] = k
 			continue
 		}
-		if len(c.Val) >= 65535 && c.Typ == enc.TypeGenericNameComponent {
-			found := false
-			for k, l := range longLen {
-				if l == len(c.Val) {
-					in[i], found = k, true
-				}
-			}
-			if found {
-				continue
-			}
-		}
 		s := string(c.Val)
 		if c.Typ != enc.TypeGenericNameComponent || !strings.HasPrefix(s, "c") {
-			return "?" + fmt.Sprintf("%d-byte component", len(c.Val))
+			return "?" + fmt.Sprintf("typ %d, %d-byte component", c.Typ, len(c.Val))
 		}
 		k, err := strconv.Atoi(s[1:])
 		if err != nil {
@@ -215,7 +254,10 @@ type op struct {
 	name iname
 	a    []uint64 // numeric arguments
 	text string   // rep: the batch "name=f:c,f:c;name=-;..."
+	via  string   // how the name is obtained (see encVia)
 }
+
+func (o op) ename() enc.Name { return o.name.encVia(o.via) }
 
 func (o op) String() string {
 	if o.kind == "rep" {
@@ -226,6 +268,9 @@ func (o op) String() string {
 	if o.kind != "cleanup" {
 		sb.WriteByte(' ')
 		sb.WriteString(o.name.String())
+		if o.via != "" {
+			sb.WriteString("~" + o.via)
+		}
 	}
 	for _, x := range o.a {
 		sb.WriteByte(' ')
@@ -251,7 +296,8 @@ func parseOp(fields []string) op {
 	}
 	rest := fields[1:]
 	if o.kind != "cleanup" && len(rest) > 0 {
-		o.name = parseIName(rest[0])
+		nm, via := splitVia(rest[0])
+		o.name, o.via = parseIName(nm), via
 		rest = rest[1:]
 	}
 	for _, f := range rest {
@@ -337,6 +383,7 @@ type obsCtx struct {
 	label string
 	fib   table.FibStrategy
 	hash  map[uint64]string // hash -> interned name, for every prefix of a universe/op name
+	rot   int               // rotates the representation used for each universe name from lookup round to lookup round
 }
 
 func (x *obsCtx) anomaly(format string, a ...any) {
@@ -344,10 +391,11 @@ func (x *obsCtx) anomaly(format string, a ...any) {
 }
 
 func (x *obsCtx) lookups() {
+	x.rot++
 	nh := make([]string, len(x.c.universe))
 	st := make([]string, len(x.c.universe))
 	for i, n := range x.c.universe {
-		en := n.enc()
+		en := n.encVia([]string{"", "s", "b"}[(i+x.rot)%3])
 		nh[i] = nhStr(x.fib.FindNextHopsEnc(en))
 		st[i] = stratStr(x.fib.FindStrategyEnc(en))
 	}
@@ -485,7 +533,7 @@ func newFib(kind string, m int) table.FibStrategy {
 }
 
 func applyFib(f table.FibStrategy, o op) {
-	n := o.name.enc()
+	n := o.ename()
 	switch o.kind {
 	case "ins":
 		f.InsertNextHopEnc(n, o.a[0], o.a[1])
@@ -501,7 +549,8 @@ func applyFib(f table.FibStrategy, o op) {
 		var updates []table.FibNextHopsUpdate
 		for _, item := range strings.Split(o.text, ";") {
 			kv := strings.SplitN(item, "=", 2)
-			u := table.FibNextHopsUpdate{Name: parseIName(kv[0]).enc()}
+			nm, via := splitVia(kv[0])
+			u := table.FibNextHopsUpdate{Name: parseIName(nm).encVia(via)}
 			if len(kv) == 2 && kv[1] != "-" {
 				for _, h := range strings.Split(kv[1], ",") {
 					fc := strings.SplitN(h, ":", 2)
@@ -521,9 +570,9 @@ func applyRib(o op) {
 	case "sets", "uns": // strategy choice made directly on the FIB the RIB writes to
 		applyFib(table.FibStrategyTable, o)
 	case "reg":
-		table.Rib.AddEncRoute(o.name.enc(), &table.Route{FaceID: curFaces.id(o.a[0]), Origin: o.a[1], Cost: o.a[2], Flags: o.a[3]})
+		table.Rib.AddEncRoute(o.ename(), &table.Route{FaceID: curFaces.id(o.a[0]), Origin: o.a[1], Cost: o.a[2], Flags: o.a[3]})
 	case "unreg":
-		table.Rib.RemoveRouteEnc(o.name.enc(), curFaces.id(o.a[0]), o.a[1])
+		table.Rib.RemoveRouteEnc(o.ename(), curFaces.id(o.a[0]), o.a[1])
 	case "cleanup":
 		face.FaceTable.Remove(curFaces.id(o.a[0])) // the real teardown path; possibly for a face that is already gone
 	}
@@ -577,7 +626,8 @@ func runCase(w *bufio.Writer, c *tcase) {
 		addHash(o.name)
 		if o.kind == "rep" {
 			for _, item := range strings.Split(o.text, ";") {
-				addHash(parseIName(strings.SplitN(item, "=", 2)[0]))
+				nm, _ := splitVia(strings.SplitN(item, "=", 2)[0])
+				addHash(parseIName(nm))
 			}
 		}
 	}
@@ -716,18 +766,43 @@ func (g *gen) withLong(pfx []iname) []iname {
 			continue
 		}
 		n := append(iname{}, b...)
-		n = append(n, 91+g.r.Intn(4))
+		n = append(n, 91+g.r.Intn(6))
 		out = append(out, n)
 		if g.r.Intn(2) == 0 {
 			out = append(out, append(append(iname{}, n...), 1+g.r.Intn(2)))
 		}
 		if g.r.Intn(2) == 0 { // the same position with another long component of a neighbouring length
-			n2 := append(append(iname{}, b...), 91+g.r.Intn(4))
+			n2 := append(append(iname{}, b...), 91+g.r.Intn(6))
 			out = append(out, n2)
 		}
 	}
 	return out
 }
+
+// withBoundary: under one parent, siblings whose value length / type / whole-name length sit at the encoding boundaries
+// (around 253), pairs differing only in the last byte
+func (g *gen) withBoundary(pfx []iname) []iname {
+	out := append([]iname{}, pfx...)
+	for j := 0; j < 2; j++ {
+		b := pfx[g.r.Intn(len(pfx))]
+		if len(b) >= 6 {
+			continue
+		}
+		k0 := 101 + 2*g.r.Intn(9) // a sibling pair
+		for _, k := range []int{k0, k0 + 1, 101 + g.r.Intn(18)} {
+			n := append(append(iname{}, b...), k)
+			out = append(out, n)
+			if g.r.Intn(3) == 0 {
+				out = append(out, append(append(iname{}, n...), 1+g.r.Intn(2)))
+			}
+		}
+	}
+	return out
+}
+
+var vias = []string{"", "", "s", "b"}
+
+func (g *gen) via() string { return vias[g.r.Intn(len(vias))] }
 
 // withTyped: under one parent, siblings that differ only in component type or in the byte form of the same number
 func (g *gen) withTyped(pfx []iname) []iname {
@@ -759,6 +834,8 @@ func (g *gen) fibCase(id string, m int) *tcase {
 		}
 	case 1, 2, 3:
 		pfx = g.withTyped(pfx)
+	case 4, 5:
+		pfx = g.withBoundary(pfx)
 	}
 	c := &tcase{id: id, m: m, kind: "fib", impls: "TH", universe: g.universe(pfx)}
 	nops := 10 + g.r.Intn(51)
@@ -788,22 +865,26 @@ func (g *gen) fibCase(id string, m int) *tcase {
 					}
 					hops = strings.Join(hs, ",")
 				}
-				items = append(items, bn.String()+"="+hops)
+				bv := bn.String()
+				if v := g.via(); v != "" {
+					bv += "~" + v
+				}
+				items = append(items, bv+"="+hops)
 			}
 			c.ops = append(c.ops, op{kind: "rep", text: strings.Join(items, ";")})
 		case k < 35:
-			c.ops = append(c.ops, op{kind: "ins", name: n, a: []uint64{face, g.pick(costs)}})
+			c.ops = append(c.ops, op{via: g.via(), kind: "ins", name: n, a: []uint64{face, g.pick(costs)}})
 		case k < 55:
-			c.ops = append(c.ops, op{kind: "rem", name: n, a: []uint64{face}})
+			c.ops = append(c.ops, op{via: g.via(), kind: "rem", name: n, a: []uint64{face}})
 		case k < 65:
-			c.ops = append(c.ops, op{kind: "clr", name: n, a: nil})
+			c.ops = append(c.ops, op{via: g.via(), kind: "clr", name: n, a: nil})
 		case k < 82:
-			c.ops = append(c.ops, op{kind: "sets", name: n, a: []uint64{uint64(g.r.Intn(4))}})
+			c.ops = append(c.ops, op{via: g.via(), kind: "sets", name: n, a: []uint64{uint64(g.r.Intn(4))}})
 		default:
 			if len(n) == 0 && !unsetRoot {
 				continue
 			}
-			c.ops = append(c.ops, op{kind: "uns", name: n, a: nil})
+			c.ops = append(c.ops, op{via: g.via(), kind: "uns", name: n, a: nil})
 		}
 	}
 	return c
@@ -813,8 +894,11 @@ var origins = []uint64{0, 0, 65, 128, 255}
 
 func (g *gen) ribCase(id string, m int, impl string) *tcase {
 	pfx := g.prefixes()
-	if g.r.Intn(4) == 0 {
+	switch g.r.Intn(8) {
+	case 0, 1:
 		pfx = g.withTyped(pfx)
+	case 2:
+		pfx = g.withBoundary(pfx)
 	}
 	c := &tcase{id: id, m: m, kind: "rib", impls: impl, universe: g.universe(pfx)}
 	type reg struct {
@@ -824,7 +908,7 @@ func (g *gen) ribCase(id string, m int, impl string) *tcase {
 	var live []reg
 	var stratNames []iname
 	add := func(n iname, face, origin, cost, flags uint64) {
-		c.ops = append(c.ops, op{kind: "reg", name: n, a: []uint64{face, origin, cost, flags}})
+		c.ops = append(c.ops, op{via: g.via(), kind: "reg", name: n, a: []uint64{face, origin, cost, flags}})
 		live = append(live, reg{n, face, origin})
 	}
 	// one history in three starts from a nested chain: child-inherit routes above, a CAPTURE-ONLY (flags = 2) or other
@@ -850,7 +934,7 @@ func (g *gen) ribCase(id string, m int, impl string) *tcase {
 			if g.r.Intn(2) == 0 {
 				add(mid, 4, 65, g.pick(costs), 1)
 			}
-			c.ops = append(c.ops, op{kind: "unreg", name: mid, a: []uint64{2, 0}})
+			c.ops = append(c.ops, op{via: g.via(), kind: "unreg", name: mid, a: []uint64{2, 0}})
 		}
 	}
 	nops := 6 + g.r.Intn(35)
@@ -866,10 +950,10 @@ func (g *gen) ribCase(id string, m int, impl string) *tcase {
 				sn = append(sn, 1+g.r.Intn(2))
 			}
 			if g.r.Intn(2) == 0 {
-				c.ops = append(c.ops, op{kind: "sets", name: sn, a: []uint64{uint64(g.r.Intn(4))}})
+				c.ops = append(c.ops, op{via: g.via(), kind: "sets", name: sn, a: []uint64{uint64(g.r.Intn(4))}})
 				stratNames = append(stratNames, sn)
 			} else if len(stratNames) > 0 {
-				c.ops = append(c.ops, op{kind: "uns", name: stratNames[g.r.Intn(len(stratNames))], a: nil})
+				c.ops = append(c.ops, op{via: g.via(), kind: "uns", name: stratNames[g.r.Intn(len(stratNames))], a: nil})
 			}
 			continue
 		}
@@ -881,7 +965,7 @@ func (g *gen) ribCase(id string, m int, impl string) *tcase {
 				r := live[g.r.Intn(len(live))]
 				n, face, origin = r.n, r.face, r.origin
 			}
-			c.ops = append(c.ops, op{kind: "unreg", name: n, a: []uint64{face, origin}})
+			c.ops = append(c.ops, op{via: g.via(), kind: "unreg", name: n, a: []uint64{face, origin}})
 		default:
 			c.ops = append(c.ops, op{kind: "cleanup", name: nil, a: []uint64{face}})
 		}
